@@ -47,6 +47,7 @@ type fzCase struct {
 
 // listener configurations: bit0 base TLS, bit1 aead storage+registration wrappers
 type fzWorld struct {
+	fatals int // listeners lost to a non-temporary accept error
 	cfg    int
 	s      *world.Server
 	lw     *world.LW
@@ -188,6 +189,7 @@ func (w *fzWorld) runCase(c *engine.Ctx, fc fzCase) {
 		r.Violation("non-temporary-error:"+fc.Class, fmt.Sprintf("Accept returned a non-temporary error while the base listener is open: %v", ferr), fc)
 		w.lw.Close()
 		w.start()
+		w.fatals++
 		return
 	}
 	if werr != nil {
@@ -550,6 +552,9 @@ func runFuzzListen(c *engine.Ctx) engine.Result {
 				return
 			}
 			for i, fc := range cases {
+				if w.fatals >= 3 {
+					break // every hostile connection stops the listener: nothing more to learn from this world
+				}
 				w.runCase(c, fc)
 				total.Add(1)
 				if (i+1)%25 == 0 {
